@@ -55,6 +55,15 @@ pub struct Case {
     /// Total frame size of the message under test.
     pub size: u32,
     pub fill: u8,
+    /// (response paths, finite limit) make the request's query this many bytes shorter
+    /// than the limit allows (0 = the plain short path): the echoed query then takes up
+    /// almost the whole frame budget
+    #[serde(default)]
+    pub query_slack: u16,
+    /// (proxy path) the upstream answers with an application *error* whose message has
+    /// the size under test
+    #[serde(default)]
+    pub upstream_error: bool,
 }
 
 /// Erased handler: request body = 4-byte LE response-body length + fill byte.
@@ -105,9 +114,33 @@ fn watchdog() -> Duration {
 
 type Errors = Arc<Mutex<Vec<(String, usize, usize)>>>;
 
+/// The response path for a case: "/sized" (or "/sizeb"), optionally padded so that the
+/// query is `query_slack` bytes short of filling a frame of `limit` bytes.
+fn response_path(base: &str, limit: Option<usize>, query_slack: u16) -> String {
+    match (limit, query_slack) {
+        (Some(l), s) if s > 0 && l <= (1 << 16) && l > 48 + base.len() + 1 + s as usize => {
+            format!("{base}/{}", "q".repeat(l - 48 - base.len() - 1 - s as usize))
+        }
+        _ => base.to_string(),
+    }
+}
+
 fn server_router(peers_for_notify: bool) -> Router {
+    server_router_with(peers_for_notify, &[])
+}
+
+fn server_router_with(peers_for_notify: bool, extra_paths: &[(String, bool)]) -> Router {
     let _ = peers_for_notify;
-    Router::new()
+    let mut r = Router::new();
+    for (p, off_reader) in extra_paths {
+        r = r.with_erased_handler(p, Arc::new(Sized { off_reader: *off_reader }));
+    }
+    r.with_json("/sizederr", |v: Value| -> Result<Value, (ErrorCode, String)> {
+        // an application error whose message has the requested size
+        let n = v.get("n").and_then(Value::as_u64).unwrap_or(0) as usize;
+        let f = v.get("f").and_then(Value::as_u64).unwrap_or(b'e' as u64) as u8;
+        Err((ErrorCode::ApplicationErrorBase, String::from_utf8(vec![b'a' + f % 26; n]).unwrap()))
+    })
         .with_erased_handler("/sized", Arc::new(Sized { off_reader: false }))
         .with_erased_handler("/sizeb", Arc::new(Sized { off_reader: true }))
         .with_json_ctx("/push", |ctx: &CallContext, v: Value| {
@@ -191,7 +224,11 @@ pub fn check(c: &Case) -> CheckResult {
             Path::InlineResponse | Path::OffReaderResponse | Path::HandlerNotify | Path::Broadcast | Path::BurstNotify | Path::BurstResponse => {
                 let peers = PeerRegistry::new();
                 let errs = errors.clone();
-                let shared = WebSocketServer::new(server_router(true))
+                let long_paths = [
+                    (response_path("/sized", limit, c.query_slack), false),
+                    (response_path("/sizeb", limit, c.query_slack), true),
+                ];
+                let shared = WebSocketServer::new(server_router_with(true, &long_paths))
                     .with_limits(limits)
                     .with_peer_registry(peers.clone())
                     .on_error(move |e: &ConnectionError| {
@@ -212,7 +249,11 @@ pub fn check(c: &Case) -> CheckResult {
                 };
                 match c.path {
                     Path::InlineResponse | Path::OffReaderResponse => {
-                        let path = if c.path == Path::InlineResponse { "/sized" } else { "/sizeb" };
+                        let path_s = response_path(if c.path == Path::InlineResponse { "/sized" } else { "/sizeb" }, limit, c.query_slack);
+                        let path = path_s.as_str();
+                        // (with a long query the smallest possible response is the query itself)
+                        let size = size.max(48 + path.len());
+                        let over = limit.is_some_and(|l| size > l);
                         let body_len = size - 48 - path.len();
                         io.send(&sized_request(7, path, body_len, c.fill)).await.map_err(|e| Fail::new("harness-send", e.to_string()))?;
                         let f = recv_frame(&mut io, "the response").await?;
@@ -372,7 +413,8 @@ pub fn check(c: &Case) -> CheckResult {
             }
             Path::Proxy => {
                 // upstream: a real Server with the sized handler; the proxy sits on a duplex
-                let server = Server::new(server_router(false));
+                let proxy_path = response_path("/sized", limit, c.query_slack);
+                let server = Server::new(server_router_with(false, &[(proxy_path.clone(), false)]));
                 let l = server.listen(crate::util::lo0().as_str()).map_err(|e| Fail::new("harness-listen", e.to_string()))?;
                 let addr = l.local_addr().unwrap();
                 crate::peers::net::stop_at_end_of_case(&l);
@@ -395,13 +437,30 @@ pub fn check(c: &Case) -> CheckResult {
                 )
                 .await;
                 let mut io = WsIo::new(cws);
-                let body_len = size - 48 - "/sized".len();
-                io.send(&sized_request(7, "/sized", body_len, c.fill)).await.map_err(|e| Fail::new("harness-send", e.to_string()))?;
+                let (ppath, size) = if c.upstream_error { ("/sizederr".to_string(), size.max(48 + 9)) } else { (proxy_path.clone(), size.max(48 + proxy_path.len())) };
+                let over = limit.is_some_and(|l| size > l);
+                let body_len = size - 48 - ppath.len();
+                if c.upstream_error {
+                    let body = serde_json::to_vec(&json!({"n": body_len, "f": c.fill})).unwrap();
+                    io.send(&frame_with(7, 0, ppath.as_bytes(), 1, &body, 2, 0)).await.map_err(|e| Fail::new("harness-send", e.to_string()))?;
+                } else {
+                    io.send(&sized_request(7, &ppath, body_len, c.fill)).await.map_err(|e| Fail::new("harness-send", e.to_string()))?;
+                }
                 let f = recv_frame(&mut io, "the proxied response").await?;
                 let mut raw = f.header.encode().to_vec();
                 raw.extend(&f.query);
                 raw.extend(&f.body);
-                if over {
+                if c.upstream_error && !over {
+                    // the upstream's error reply fits: forwarded as it is
+                    ensure!(
+                        f.header.id == 7 && f.header.ec == ErrorCode::ApplicationErrorBase as u32 && f.body.len() == body_len && f.body.iter().all(|b| *b == b'a' + c.fill % 26),
+                        "deliverable-response-altered",
+                        "proxy: a {size}-byte upstream error reply within the {limit:?} limit arrived as id {:#x} ec {} with {} body bytes",
+                        f.header.id,
+                        f.header.ec,
+                        f.body.len()
+                    );
+                } else if over {
                     ensure!(
                         f.header.id == 7 && f.header.ec == ErrorCode::InternalError as u32,
                         "oversized-response-not-replaced",
@@ -411,7 +470,7 @@ pub fn check(c: &Case) -> CheckResult {
                         raw.len()
                     );
                 } else {
-                    let want = expected_response(7, "/sized", body_len, c.fill);
+                    let want = expected_response(7, &ppath, body_len, c.fill);
                     ensure!(raw == want, "deliverable-response-altered", "proxy: {}", crate::util::diff_msg("response", &raw, &want));
                 }
                 ping(&mut io, 99).await?;
@@ -528,6 +587,8 @@ pub fn boundary_cases(tier: Tier) -> Vec<Case> {
                     limit,
                     size: (base + d) as u32,
                     fill: 0x40 + (d + 2) as u8,
+                    query_slack: 0,
+                    upstream_error: false,
                 });
             }
             v.push(Case {
@@ -535,7 +596,35 @@ pub fn boundary_cases(tier: Tier) -> Vec<Case> {
                 limit,
                 size: (base * 2).min(3 << 20) as u32,
                 fill: 0x50,
+                query_slack: 0,
+                upstream_error: false,
             });
+            // the echoed query takes up almost the whole frame budget (response paths)
+            if matches!(path, Path::InlineResponse | Path::OffReaderResponse | Path::Proxy) && limit.is_some_and(|l| l <= 1 << 16) {
+                for (slack, d) in [(60u16, 1i64), (100, 1), (170, 1), (300, 4000), (100, 0), (100, -1)] {
+                    v.push(Case {
+                        path,
+                        limit,
+                        size: (base + d).max(200) as u32,
+                        fill: 0x60,
+                        query_slack: slack,
+                        upstream_error: false,
+                    });
+                }
+            }
+            // upstream error replies through the proxy
+            if path == Path::Proxy {
+                for d in [-2i64, 0, 1, 2, base] {
+                    v.push(Case {
+                        path,
+                        limit,
+                        size: (base + d) as u32,
+                        fill: 0x70,
+                        query_slack: 0,
+                        upstream_error: true,
+                    });
+                }
+            }
         }
     }
     v
@@ -543,8 +632,16 @@ pub fn boundary_cases(tier: Tier) -> Vec<Case> {
 
 fn case(tier: Tier) -> BoxedStrategy<Case> {
     let ls = limits_for(tier);
-    (prop::sample::select(PATHS.to_vec()), prop::sample::select(ls), any::<u32>(), any::<u8>(), 0u8..4)
-        .prop_map(|(path, limit, r, fill, mode)| {
+    (
+        prop::sample::select(PATHS.to_vec()),
+        prop::sample::select(ls),
+        any::<u32>(),
+        any::<u8>(),
+        0u8..4,
+        prop_oneof![3 => Just(0u16), 2 => 40u16..400],
+        prop::bool::weighted(0.3),
+    )
+        .prop_map(|(path, limit, r, fill, mode, query_slack, upstream_error)| {
             let l = limit.unwrap_or(65536) as u64;
             let size = match mode {
                 0 => 200 + (r as u64 % l.max(201).saturating_sub(200)),
@@ -553,7 +650,14 @@ fn case(tier: Tier) -> BoxedStrategy<Case> {
                 _ => 200 + (r as u64 % 4000),
             }
             .clamp(200, 20 << 20) as u32;
-            Case { path, limit, size, fill }
+            Case {
+                path,
+                limit,
+                size,
+                fill,
+                query_slack: if matches!(path, Path::InlineResponse | Path::OffReaderResponse | Path::Proxy) { query_slack } else { 0 },
+                upstream_error: upstream_error && path == Path::Proxy,
+            }
         })
         .boxed()
 }
